@@ -143,6 +143,21 @@ def mv(A, B, variant, style="2f", explicit=False, cnt=None, z0=None):
             for k, (a_val, b_val) in isect(a_k, b.getRoot(), style):
                 cnt.body("K")
                 leaf(z_ref, a_val, b_val)
+    elif variant == "MK-ref":
+        # the output element is obtained with getPayloadRef instead of being driven by populate
+        for m, a_k in a.getRoot():
+            cnt.body("M")
+            z_ref = z_m.getPayloadRef(m)
+            for k, (a_val, b_val) in isect(a_k, b.getRoot(), style):
+                cnt.body("K")
+                leaf(z_ref, a_val, b_val)
+    elif variant == "MK-dense":
+        # the reduction rank is walked densely over its shape: absent elements arrive as default boxes and are multiplied like any other
+        for m, (z_ref, a_k) in z_m << a.getRoot():
+            cnt.body("M")
+            for k, (a_val, b_val) in Fiber.coiterRangeShape([a_k, b.getRoot()], 0, K):
+                cnt.body("K")
+                cnt.macc(z_ref, a_val, b_val)
     elif variant == "KM":
         a2 = a.swizzleRanks(["K", "M"])
         for k, (a_m, b_val) in isect(a2.getRoot(), b.getRoot(), style):
